@@ -41,6 +41,11 @@ SHAPES = {
 }
 
 
+# directories without any file below them (created next to the files)
+EMPTY_DIRS = {"D3e": [("e",), ("d", "f", "g"), ("zz",)]}
+SHAPES["D3e"] = [("a",), ("d", "b"), ("m",)]
+
+
 def nfiles(shape):
     return 1 if SHAPES[shape] is None else len(SHAPES[shape])
 
@@ -129,9 +134,11 @@ def write_file(path, data):
         f.write(data)
 
 
-def materialize(files, parent, name=ROOT_NAME):
+def materialize(files, parent, name=ROOT_NAME, shape=None):
     """Create parent/name as described by files [(rel, bytes)]; return its path."""
     root = os.path.join(parent, name)
+    for rel in EMPTY_DIRS.get(shape, ()):
+        os.makedirs(os.path.join(root, *rel), exist_ok=True)
     if len(files) == 1 and files[0][0] == ():
         write_file(root, files[0][1])
         return root
